@@ -87,6 +87,8 @@ pub enum KEv {
     /// Measured quantities that traffic can drive anywhere.
     SetMeasured { link: usize, bitrate_bps: u64, add_bytes: u64, add_naks: u32 },
     SetWindow { link: usize, window: i32 },
+    /// Counter reset as a reconnect does it (loss counters and byte counters restart).
+    ResetCounters { link: usize },
     /// Direct accounting events with explicit sequence numbers (C02 histories).
     Register { link: usize, seq: i32 },
     CumAckSeq { seq: i32 },
@@ -422,6 +424,11 @@ impl KWorld {
             }
             KEv::SetWindow { link, window } => {
                 self.conns[*link % n].window = (*window).clamp(1000, 60_000);
+            }
+            KEv::ResetCounters { link } => {
+                let c = &mut self.conns[*link % n];
+                c.congestion.reset();
+                c.bitrate.reset(now);
             }
             KEv::Register { link, seq } => {
                 // the production path: queue, then take_batch registers at flush time
